@@ -391,6 +391,38 @@ method defers the matching unlock immediately and does nothing else with the mut
 def LockDiscipline (T : M → MethodInfo F M) (allM : List M) : Bool :=
   typingOK T allM (mutF T allM) (inferCtxs T allM)
 
+/-! ### every exported operation is ONE critical section
+
+`LockDiscipline` makes every critical section atomic and race-free; it does not by itself stop
+an exported method from being composed of SEVERAL critical sections (take the read lock, look
+something up, release; take it again, fetch the rest) — each section sees a whole-block state,
+their combination may not.  The property speaks about whole calls, so: an exported method that
+takes no lock itself must not reach a lock-taking method (through callees that take none). -/
+
+/-- the lock-taking methods reachable from the body of `m` through callees that take no lock -/
+def reachLocking (T : M → MethodInfo F M) : Nat → List M → List M → List M
+  | 0, _, acc => acc
+  | n + 1, todo, acc =>
+    match todo with
+    | [] => acc
+    | x :: rest =>
+      let i := T x
+      let cs := i.preCalls ++ i.calls
+      let locking := cs.filter (fun c => (T c).lock != .none && !acc.contains c)
+      let plain := cs.filter (fun c => (T c).lock == .none)
+      reachLocking T n (rest ++ plain) (acc ++ locking.eraseDups)
+
+/-- exported methods that take no lock and still reach a lock-taking method, with what they reach -/
+def multiSection (T : M → MethodInfo F M) (allM : List M) : List (M × List M) :=
+  (allM.filter (fun m => (T m).exported && (T m).lock == .none)).filterMap fun m =>
+    let r := reachLocking T (allM.length * allM.length + 1) [m] []
+    if r.isEmpty then none else some (m, r)
+
+/-- THE check: apart from the listed exemptions, no exported method is composed of several
+critical sections -/
+def SingleSection (T : M → MethodInfo F M) (allM exempt : List M) : Bool :=
+  (multiSection T allM).all (fun x => exempt.contains x.1)
+
 end Check
 
 end UtreexoVerif.Model.Lock
